@@ -567,6 +567,9 @@ func runC12Case(c c12Case) (obs c12Obs) {
 		default:
 			obs.Rets = append(obs.Rets, 2)
 			obs.RetTxt = append(obs.RetTxt, e.Error())
+			if strings.HasPrefix(e.Error(), "panic") || e.Error() == "hung" {
+				p.poisoned = true
+			}
 		}
 	}
 	if gated {
